@@ -336,13 +336,18 @@ End MemWalk.
 
 Definition result := option (list vnode).
 
+(* Fuel of the tree walks (the Go code recurses without a bound): a node at depth d is reached with fuel d + 1, and the
+   depth of a node is at most the number of components of the longest entry name. *)
+Definition walk_fuel (toc : list entry) : nat :=
+  S (S (fold_right (fun e m => Nat.max (length (e_name e)) m) O toc)).
+
 Definition view_mem (toc : list entry) (probes : list Z) : result :=
   match mem_build toc with
   | None => None
   | Some (s, cm) =>
       match pfind [] (ms_m s) with
       | None => None
-      | Some root => Some (assign_inos (mem_walk s cm probes (S (length (ms_nodes s))) root []))
+      | Some root => Some (assign_inos (mem_walk s cm probes (walk_fuel toc) root []))
       end
   end.
 
@@ -538,7 +543,7 @@ End DbWalk.
 Definition view_db (toc : list entry) (probes : list Z) : result :=
   match db_build toc with
   | None => None
-  | Some s => Some (assign_inos (db_walk s probes (S (length (ds_nodes s))) O []))
+  | Some s => Some (assign_inos (db_walk s probes (walk_fuel toc) O []))
   end.
 
 (* ---------- the multi-layer database (one bolt file) ---------- *)
